@@ -731,6 +731,9 @@ def reshape(t, target):
     splitting one dim into adjacent dims (row-major)."""
     target = _infer_minus_one(t.shape, target)
     src = t.shape
+    if any(conc(d) and d == 0 for d in src) and any(conc(d) and d == 0 for d in target):
+        # no elements: any shape with zero elements is a valid reshape
+        return STensor(list(target), t.dtype, fn=lambda idx: cast_scalar(0, t.dtype), kind=t.kind)
     # fast path: identical
     if len(src) == len(target) and all(dims_equal(a, b) is True for a, b in zip(src, target)):
         return _view(t, list(target), lambda idx: idx, lambda b: (True, b), contiguous=t.contiguous)
